@@ -77,6 +77,9 @@ impl ToleranceMap for DiscreteDomainTolMap {
             None
         } else if let Some(i) = self.domain.index_of(x) {
             Some(self.tol_zones[i])
+        } else if x < self.domain[0] {
+            // No zone starts before the first value in the domain
+            None
         } else {
             Some(self.tol_zones[self.tol_zones.len() - 1])
         }
